@@ -27,6 +27,16 @@ fn probes(lines: &[Line], extra: &Line) -> Vec<Line> {
         }
     }
     ids.truncate(4);
+    // two-digit fragment numbers in play (long groups): the continuation of each is a probe as well
+    let mut longs: Vec<(u32, u32)> = Vec::new();
+    for l in lines.iter() {
+        if let Shape::WellFormed(f) = recognise(&l.bytes) {
+            let (n, k) = (f.num_fragments as u32, f.fragment_number as u32);
+            if k >= 9 && k < n && n <= 255 && !longs.contains(&(n, k + 1)) && longs.len() < 6 {
+                longs.push((n, k + 1));
+            }
+        }
+    }
     let mut out = Vec::new();
     // a decodable unfragmented sentence with decoding on: residue of an earlier payload (a scratch buffer
     // that was not cleared, say) shows in the message it decodes to
@@ -36,6 +46,9 @@ fn probes(lines: &[Line], extra: &Line) -> Vec<Line> {
         for k in 2..=9u32 {
             out.push(Line::new(build::line(k, k, id, b"A", b"P", 0), false)); // final
             out.push(Line::new(build::line(k + 1, k, id, b"A", b"Q", 0), false)); // non-final
+        }
+        for (n, k) in longs.iter() {
+            out.push(Line::new(build::line(*n, *k, id, b"A", b"R", 0), false));
         }
     }
     out
@@ -253,6 +266,17 @@ pub fn run(ctx: &mut Ctx) {
         order,
     });
     ctx.run_proptest("two-parsers", &STD, n / 2, inter, check);
+    // the same with a long group (two-digit fragment numbers, probes aimed at the position reached) as the history
+    let long = || {
+        (crate::gen::sentence::long_group_events(), any::<u16>(), extra_line()).prop_map(|(evs, psel, extra)| {
+            let lines: Vec<Line> = evs.iter().map(render_ev).collect();
+            let pos = (psel as usize * (lines.len() + 1)) >> 16;
+            Input::Insert { lines, pos, extra }
+        })
+    };
+    for cfg in configs() {
+        ctx.run_proptest("insert-line-long-group", cfg, n / 8, long(), check);
+    }
     let others = if ctx.tier == Tier::Thorough { n / 4 } else { n / 6 };
     for cfg in configs().into_iter().skip(1) {
         ctx.run_proptest("insert-line", cfg, others, insert_inputs(10), check);
